@@ -46,7 +46,60 @@ func verifSortedKeys(m map[string]any) []string {
 	return keys
 }
 
-//verif:harness id=C03 tier=quick,thorough witness=end bounds="8 OpenAPI 2 object kinds (document, Operation, Parameter x2, Schema, Response, SecurityScheme, PathItem) in normal form with every specified field and an x- extension; variants: all members, each member dropped, each member alone; JSON reader/writer only"
+// verifFlipBools: the tree with every boolean negated (all depths).
+func verifFlipBools(t any) any {
+	switch x := t.(type) {
+	case bool:
+		return !x
+	case []any:
+		out := make([]any, len(x))
+		for i := range x {
+			out[i] = verifFlipBools(x[i])
+		}
+		return out
+	case map[string]any:
+		out := map[string]any{}
+		for k, v := range x {
+			if k == "example" || k == "default" || k == "value" || k == "enum" {
+				out[k] = v // free-form data stays as it is
+				continue
+			}
+			out[k] = verifFlipBools(v)
+		}
+		return out
+	}
+	return t
+}
+
+// verifDropDefaultFalse: a member whose value is false says the same as its absence for every
+// boolean of the specification except "explode" (default depends on style) and
+// "additionalProperties" (false forbids); free-form data is left alone.
+func verifDropDefaultFalse(t any) any {
+	switch x := t.(type) {
+	case []any:
+		out := make([]any, len(x))
+		for i := range x {
+			out[i] = verifDropDefaultFalse(x[i])
+		}
+		return out
+	case map[string]any:
+		out := map[string]any{}
+		for k, v := range x {
+			if k == "example" || k == "default" || k == "value" || k == "enum" {
+				out[k] = v
+				continue
+			}
+			if b, isBool := v.(bool); isBool && !b && k != "explode" && k != "additionalProperties" {
+				continue
+			}
+			out[k] = verifDropDefaultFalse(v)
+		}
+		return out
+	}
+	return t
+}
+
+//verif:harness id=C03 tier=quick,thorough witness=end bounds="8 OpenAPI 2 object kinds (document, Operation, Parameter x2, Schema, Response, SecurityScheme, PathItem) in normal form with every specified field and an x- extension; variants: all members, each member dropped, each member alone, every boolean negated; JSON reader/writer only"
 func verifH_C03_openapi2() {
 	smp := verifSamples[verifChoose("kind", len(verifSamples))]
 	tree, ok := verifJSONTree([]byte(smp.text))
@@ -59,9 +112,13 @@ func verifH_C03_openapi2() {
 	for _, k := range smp.keep {
 		required[k] = true
 	}
-	v := verifChoose("variant", 2*len(keys)+1)
+	v := verifChoose("variant", 2*len(keys)+2)
 	in := map[string]any{}
+	flipped := false
 	switch {
+	case v == 2*len(keys)+1:
+		in = verifFlipBools(obj).(map[string]any)
+		flipped = true
 	case v == 0:
 		in = obj
 	case v <= len(keys):
@@ -92,7 +149,11 @@ func verifH_C03_openapi2() {
 		return
 	}
 	got, ok := verifJSONTree(out)
-	verifAssert(ok && reflect.DeepEqual(got, any(in)), "C03 v2 "+smp.name+": the serialised JSON equals the normal-form input (nothing lost, nothing invented)")
+	if flipped {
+		verifAssert(ok && reflect.DeepEqual(verifDropDefaultFalse(got), verifDropDefaultFalse(any(in))), "C03 v2 "+smp.name+": with every boolean negated the serialised JSON equals the input up to members that are false by default")
+	} else {
+		verifAssert(ok && reflect.DeepEqual(got, any(in)), "C03 v2 "+smp.name+": the serialised JSON equals the normal-form input (nothing lost, nothing invented)")
+	}
 	y := smp.mk()
 	if json.Unmarshal(out, y) == nil {
 		out2, err2 := json.Marshal(y)
